@@ -23,7 +23,9 @@ LONG = ("(role:admin and system_scope:all) or (role:member and project_id:%(proj
 CHECKS = [LONG, 'rule:context_is_admin or ' + ' or '.join('role:role_number_%d' % i for i in range(9)),
           "'a quite long literal':%(k)s and " + ' and '.join('is_admin:True' for _ in range(8)),
           'role:admin', '', '@', '!', 'rule:admin_or_owner', "role:a and (role:b or not 'x':%(k)s)", 'is_admin:True or project_id:%(project_id)s',
-          'http://h/%(x)s', "k:'v' and role:é", 'role:a  or  role:b', '(role:a)']
+          'http://h/%(x)s', "k:'v' and role:é", 'role:a  or  role:b', '(role:a)',
+          'role:admin\tor\trole:b', '"quoted":%(k)s or role:a', "k:'a\\b' or role:a", 'role:a\nor role:b', 
+          'role:é or "q":%(k)s', 'role:\u4e16\tor role:~', 'k:\t\tx or role:é']
 
 
 def text(rng):
@@ -201,7 +203,10 @@ def _check_property(rep, specs, excl, ytext, jtext, wtab):
             rep.fail(key, 'line %r of the YAML sample is neither empty nor a comment' % (ln,), {'yaml': ytext})
             break
     # (2) states every default: un-comment the rule lines
-    printable = all(not any(c in s[f] for c in '"\\\n\r\x0b\x0c\x1c\x1d\x1e\x85  ') for s in specs for f in ('name', 'check_str'))
+    # the property's premise: names and check strings free of double quotes, backslashes and line breaks (tabs and other
+    # control characters are not line breaks); other inputs are still compared with the model
+    bad = '"\\\n\r\x0b\x0c\x1c\x1d\x1e\x85\u2028\u2029'
+    printable = all(not any(c in s[f] for c in bad) for s in specs for f in ('name', 'check_str'))
     if printable:
         un = '\n'.join(l[1:] if l.startswith('#"') else l for l in ytext.split('\n'))
         try:
